@@ -170,6 +170,25 @@ func runC11(c *Ctx) {
 			return true
 		})
 		c.Check(errOnMissing, "R11d", "Unset:missing-is-error", fd.Pos(), "Unset of a name that is not in this scope returns an error (it does not fall through to another scope)")
+		// … and it reaches no other table: no method of *Variables is called from Unset and no
+		// package-level *Variables (GlobalVariables) is mentioned in it.
+		other := ""
+		ast.Inspect(fd.Body, func(nd ast.Node) bool {
+			switch x := nd.(type) {
+			case *ast.CallExpr:
+				if fn, ok := callee(info, x).(*types.Func); ok {
+					if sig := fn.Type().(*types.Signature); sig.Recv() != nil && namedName(sig.Recv().Type()) == "Variables" && fn.Pkg() != nil && fn.Pkg().Path() == mx("lang") {
+						other = c.src(x)
+					}
+				}
+			case *ast.Ident:
+				if v, ok := info.Uses[x].(*types.Var); ok && v.Parent() == v.Pkg().Scope() && namedName(v.Type()) == "Variables" {
+					other = x.Name
+				}
+			}
+			return true
+		})
+		c.Check(other == "", "R11d", "Unset:own-table-only", fd.Pos(), "Unset touches no variable table but its receiver's: it calls no method of *Variables and mentions no package-level table (found %q) — `!set x` in a function must never remove the global or the caller's x", other)
 	}
 }
 
